@@ -393,7 +393,8 @@ def _glue(ctx, py):
             vals[6], vals[7], vals[8] = deg(RSym(r_)), deg(RSym(p_)), deg(RSym(h_))
             pva = pd.Series(vals, index=names, name=RSym(sp.Symbol("t0", real=True)), dtype=object)
             it = S.Integrator(pva, wa)
-            tt = [RSym(sp.Symbol("t%d" % i, real=True)) for i in (1, 2)]
+            from pvx.sym import increasing_stamps
+            tt = [RSym(x) for x in increasing_stamps(2, start=1)]
             cols = ["dt", "theta_x", "theta_y", "theta_z", "dv_x", "dv_y", "dv_z"]
             inc = pd.DataFrame([[RSym(sp.Symbol("%s_%d" % (c, i), real=True)) for c in cols] for i in range(2)],
                                index=pd.Index(tt, dtype=object), columns=cols, dtype=object)
